@@ -750,7 +750,8 @@ def run(out, ctx):
                                    natural=NAT_TOL, finite_difference=FD_TOL, ciq=CIQ_TOL)
     run_items(out, items)
     out.tested_not_proved = [
-        "LogNormalCDF tail branch (z < -5) and that phi/Phi is the derivative of log Phi",
+        "LogNormalCDF tail branch (rational approximation of the erfc asymptotics; that phi/Phi is the derivative of log Phi on the "
+        "whole line is proved: c19_lncdf_backward_is_derivative)",
         "_NaturalToMuVarSqrt / _TrilNaturalToMuVarSqrt for non-diagonal covariances (Cholesky differential): compared "
         "with torch autograd through an independent re-implementation of eta -> (mu, chol)",
         "prediction gradients w.r.t. test inputs: compared with central differences of the implementation",
